@@ -17,13 +17,16 @@ use parking_lot::Mutex;
 use std::collections::HashMap;
 use std::io::ErrorKind;
 use std::pin::Pin;
-use std::sync::atomic::{AtomicBool, Ordering};
+use std::sync::atomic::{AtomicBool, AtomicU64, Ordering};
 use std::sync::Arc;
 
 pub(crate) struct Subscriber {
     pub(crate) subscriptions: Vec<Vec<u8>>,
     pub(crate) send_queue: Pin<Box<ZmqFramedWrite>>,
     _subscription_coro_stop: oneshot::Sender<()>,
+    /// Which connection under this identity the entry belongs to: the reader
+    /// task of an earlier connection must not touch a newer one's entry.
+    registration: u64,
 }
 
 pub(crate) struct PubSocketBackend {
@@ -33,10 +36,24 @@ pub(crate) struct PubSocketBackend {
     /// Set once the socket is gone: a peer whose handshake completes
     /// afterwards must not be given a reader task that nobody will ever stop.
     closed: AtomicBool,
+    registrations: AtomicU64,
 }
 
 impl PubSocketBackend {
-    fn message_received(&self, peer_id: &PeerIdentity, message: Message) {
+    /// The reader task of connection `registration` saw its stream end or fail.
+    fn reader_ended(&self, peer_id: &PeerIdentity, registration: u64) {
+        log::info!("Client disconnected {:?}", peer_id);
+        let removed = self
+            .subscribers
+            .remove_if_sync(peer_id, |s| s.registration == registration);
+        if removed.is_some() {
+            if let Some(monitor) = self.monitor().lock().as_mut() {
+                let _ = monitor.try_send(SocketEvent::Disconnected(peer_id.clone()));
+            }
+        }
+    }
+
+    fn message_received(&self, peer_id: &PeerIdentity, registration: u64, message: Message) {
         let data = match message {
             Message::Message(m) => {
                 if m.len() != 1 {
@@ -56,15 +73,19 @@ impl PubSocketBackend {
             Some(1) => {
                 // Subscribe
                 if let Some(mut entry) = self.subscribers.get_sync(peer_id) {
-                    entry.subscriptions.push(Vec::from(&data[1..]));
+                    if entry.registration == registration {
+                        entry.subscriptions.push(Vec::from(&data[1..]));
+                    }
                 }
             }
             Some(0) => {
                 // Unsubscribe
                 let sub = Vec::from(&data[1..]);
                 if let Some(mut entry) = self.subscribers.get_sync(peer_id) {
-                    if let Some(index) = entry.subscriptions.iter().position(|s| s == &sub) {
-                        entry.subscriptions.remove(index);
+                    if entry.registration == registration {
+                        if let Some(index) = entry.subscriptions.iter().position(|s| s == &sub) {
+                            entry.subscriptions.remove(index);
+                        }
                     }
                 }
             }
@@ -101,6 +122,7 @@ impl MultiPeerBackend for PubSocketBackend {
         let (mut recv_queue, send_queue) = io.into_parts();
         // TODO provide handling for recv_queue
         let (sender, stop_receiver) = oneshot::channel();
+        let registration = self.registrations.fetch_add(1, Ordering::Relaxed);
         self.subscribers
             .upsert_async(
                 peer_id.clone(),
@@ -108,6 +130,7 @@ impl MultiPeerBackend for PubSocketBackend {
                     subscriptions: vec![],
                     send_queue: Box::pin(send_queue),
                     _subscription_coro_stop: sender,
+                    registration,
                 },
             )
             .await;
@@ -128,14 +151,14 @@ impl MultiPeerBackend for PubSocketBackend {
                      },
                      message = recv_queue.next().fuse() => {
                         match message {
-                            Some(Ok(m)) => backend.message_received(&peer_id, m),
+                            Some(Ok(m)) => backend.message_received(&peer_id, registration, m),
                             Some(Err(e)) => {
                                 log::debug!("Error receiving message: {:?}", e);
-                                backend.peer_disconnected(&peer_id);
+                                backend.reader_ended(&peer_id, registration);
                                 break;
                             }
                             None => {
-                                backend.peer_disconnected(&peer_id);
+                                backend.reader_ended(&peer_id, registration);
                                 break
                             }
                         }
@@ -225,6 +248,7 @@ impl Socket for PubSocket {
                 socket_monitor: Mutex::new(None),
                 socket_options: options,
                 closed: AtomicBool::new(false),
+                registrations: AtomicU64::new(0),
             }),
             binds: HashMap::new(),
         }
